@@ -75,6 +75,12 @@ def project(pid, mm, ev):
     out = [w for w in what if w in PROFILE_WHAT[pid]]
     if pid == "C19" and ev["stmt"]["k"] != "insert" and "post" in out:
         out.remove("post")        # defaults are an INSERT matter; updates are judged by the invariants on the log
+    if pid == "C14" and "post" in what and not out and ev["stmt"]["k"] == "insert" and ev["stmt"].get("mode") in ("ignore", "replace", "odku") \
+            and {"pk1", "pkN", "uniq"} & set(ev.get("tags", [])):
+        # INSERT IGNORE / REPLACE / ON DUPLICATE KEY UPDATE on a keyed table: the outcome kind is allowed but the
+        # contents are not, i.e. a row was skipped / replaced / updated although the specification sees no key
+        # collision for it, or was not although it does (when a key invariant breaks too, that is the report)
+        out.insert(0, "post")
     if "kind" in what and "kind" not in out:
         if pid == "C14" and involved("dup"):
             out.insert(0, "kind")
